@@ -8,7 +8,7 @@ func init() {
 			"Oracle (sweep and every-template runs): every template is run on 2 (quick) / 12 per shard (thorough) generated inputs with every on/off option both ways, plus a random sweep; the command is executed 3 times with the first thread count and once with each other one, every execution in a fresh working directory; exit status, stdout and every file created must be byte-identical; randomised commands always get --seed, the others get it or not (seedless determinism). " +
 			"Reformat chains: a file written by goalign in fasta/phylip (plain, strict, one-line, no-block)/nexus/clustal goes through 1-5 further reformat steps (file or pipe) and back to the first format: every step exits 0 and the final bytes equal the first file (lengths around the writers' line widths). " +
 			"Cross-command: build seqboot -n N --seed S (-f) then compute distance on boot0..N-1 concatenated == build distboot -n N --seed S with the same model/-r/--alpha/-f, byte for byte, each command with its own drawn -t. " +
-			"Known findings (only while listed in KNOWN_FINDINGS.txt): phase/phasent with -t>1 are compared as sorted multisets of output records, the name map file of trim name/rename as a sorted multiset of lines, both counted as excluded_known; TestPhaseOrder/TestNameMapOrder run the listed reproductions. " +
+			"Regressions: TestPhaseOrder (80 fixed sequences, phase|phasent --unaligned -t 8, 6 executions, all byte-identical to -t 1) and TestNameMapOrder (12 sequences, trim name -a -m / rename -e -m / rename --clean-names -m, 8 executions each) keep the reproductions of the two defects found by this check and repaired by f25e994 and 21f2412. " +
 			"Non-trivial: output non-empty and (the command is randomised, or hands --threads to a worker pool and a thread count > 1 was run, or its output is assembled from a Go map); chains with >= 2 distinct formats; non-empty matrices; distinct = distinct JSON form of the case",
 		Assumptions: []string{
 			"standard error is not compared: goalign's error messages carry a time stamp; exit status, stdout and every output file are",
@@ -20,8 +20,8 @@ func init() {
 			"absence of violations is established on the explored executions only",
 		},
 		LevelText: "Generated-input search with differential oracles between executions: ~2 300 (quick) to ~60 000 (thorough) executions of the freshly built binary over 74 command templates, compared byte for byte across repetitions, thread counts, reformat round trips and the seqboot+distance / distboot cross-check. Shows absence of violations on what was explored; every template is executed in every run.",
-		LevelNote: "run-to-run differences that depend on goroutine scheduling or map iteration are found only with the probability that two of 4-6 executions differ; two known findings (phase/phasent output order, name map file order) are compared as multisets while listed",
-		Technique: "property-based testing (rapid) over command templates: repeated-execution and cross-thread differential, round-trip and cross-command metamorphic relations, deterministic reproductions for the known findings",
+		LevelNote: "run-to-run differences that depend on goroutine scheduling or map iteration are found only with the probability that two of 4-6 executions differ (the two defects found this way, phase/phasent output order and name map file order, differed in 27 % to 100 % of the pairs of executions)",
+		Technique: "property-based testing (rapid) over command templates: repeated-execution and cross-thread differential, round-trip and cross-command metamorphic relations, deterministic regressions for the two repaired defects",
 		DesignRef: "DESIGN.md section 5, C11 (and section 2.6, 3 row 20)",
 		Runs: []runSpec{
 			{Name: "every-template", Test: "^TestEveryTemplate$", Quick: 1, Thorough: 1, Shards: 4, TimeoutS: 600},
